@@ -153,3 +153,22 @@ m("c19-copy-forgets-member", "C19", 1, [("include/gm2calc/MSSMNoFV_onshell.hpp",
    "   MSSMNoFV_onshell();\n   MSSMNoFV_onshell(const MSSMNoFV_onshell& o)\n      : MSSMNoFV_onshell_mass_eigenstates(o), verbose_output(o.verbose_output), EL(o.EL), EL0(o.EL0), Au(o.Au), Ad(o.Ad), Ae(o.Ae) {}\n"
    "   MSSMNoFV_onshell& operator=(const MSSMNoFV_onshell&) = default;\n")],
   "user-written copy constructor that forgets mb_DRbar_MZ: results on a copy differ from the original")
+
+# ----------------------------------------------------------------------------- C19: process-global environment
+m("c19-rounding-mode-leak-on-solver-failure", "C19", 1, [("src/gm2_mf.cpp", "#include <cmath>", "#include <cfenv>\n#include <cmath>"),
+  ("src/gm2_mf.cpp",
+   "   try {\n      const std::pair<double,double> root =\n         boost::math::tools::toms748_solve(Difference_alpha, lambda_qcd_min,\n                                           lambda_qcd_max, Stop_crit, it);\n\n      lambda_qcd = 0.5 * (root.first + root.second);\n",
+   "   try {\n      // bracket the root with outward rounding so that the enclosure is rigorous\n      const int old_round = std::fegetround();\n      std::fesetround(FE_UPWARD);\n      const std::pair<double,double> root =\n         boost::math::tools::toms748_solve(Difference_alpha, lambda_qcd_min,\n                                           lambda_qcd_max, Stop_crit, it);\n      std::fesetround(old_round);\n\n      lambda_qcd = 0.5 * (root.first + root.second);\n")],
+  "rounding mode changed around the root finder and not restored when the solver throws (MZ far outside the bracket): later evaluations in the same thread differ")
+
+m("c19-cerr-format-leak-on-warning", "C19", 1, [("src/gm2_mf.cpp", "#include <cmath>", "#include <cmath>\n#include <iomanip>\n#include <iostream>"),
+  ("src/gm2_mf.cpp",
+   "      WARNING(\"Could not determine lambda_QCD: \" << e.what()\n              << \".  Using lambda_QCD = \" << lambda_qcd);\n",
+   "      std::cerr << std::scientific << std::setprecision(17);\n      WARNING(\"Could not determine lambda_QCD: \" << e.what()\n              << \".  Using lambda_QCD = \" << lambda_qcd);\n")],
+  "a rarely taken warning path leaves std::cerr in scientific/17-digit mode: process-global state changed by a calculation")
+
+m("c19-rounding-mode-saved-and-restored", "C19", 0, [("src/gm2_mf.cpp", "#include <cmath>", "#include <cfenv>\n#include <cmath>"),
+  ("src/gm2_mf.cpp",
+   "   double lambda_qcd = 0.217; // Nf = 5, PDG\n",
+   "   double lambda_qcd = 0.217; // Nf = 5, PDG\n   struct Round_guard { int old; Round_guard() : old(std::fegetround()) { std::fesetround(FE_TONEAREST); } ~Round_guard() { std::fesetround(old); } } round_guard;\n")],
+  "RAII guard forcing round-to-nearest during the solve and restoring the caller's mode: property holds")
